@@ -35,6 +35,15 @@ from ..const import (
 )
 
 
+def name_can_be_encoded(name: str) -> bool:
+    """Check that every label of a name still fits in 63 bytes when it is encoded.
+
+    A name decoded from the wire can fail this: invalid UTF-8 in a label is replaced
+    by characters that take three bytes each.
+    """
+    return name.isascii() or all(len(label.encode('utf-8')) < 64 for label in name.split('.'))
+
+
 @lru_cache(maxsize=512)
 def service_type_name(type_: str, *, strict: bool = True) -> str:  # pylint: disable=too-many-branches
     """
